@@ -96,20 +96,20 @@ Definition valid_of (bad : list Z) (o : obj Z) : bool :=
   match o with Leaf x => negb (existsb (Z.eqb x) bad) | _ => true end.
 Definition tbZ (_ : obj Z) : obj Z := Leaf 0%Z.
 
-Definition oneshotZ (t : table) (bad : list Z) := oneshot Z pb dumpZ loadZ (f_of t) (valid_of bad) tbZ shipped.
+Definition oneshotZ (c : cfg) (t : table) (bad : list Z) := oneshot Z pb dumpZ loadZ (f_of t) (valid_of bad) tbZ c.
 Definition oargs_eqb (a b : oargs) : bool :=
   Bool.eqb (a_array a) (a_array b) && opt_eq str_eqb (a_rank_env a) (a_rank_env b)
   && opt_eq str_eqb (a_input a) (a_input b) && opt_eq str_eqb (a_output a) (a_output b)
   && opt_eq str_eqb (a_error a) (a_error b) && Bool.eqb (a_no_cache a) (a_no_cache b).
 
 (** one oneshot run: outcome, resulting files, and what the executor-side readers say afterwards *)
-Definition oneshot_case (t : table) (bad : list Z) (env : env_t) (a : oargs) (fs : fs_t pb)
+Definition oneshot_case (c : cfg) (t : table) (bad : list Z) (env : env_t) (a : oargs) (fs : fs_t pb)
     (exp_run : run Z) (exp_fs : fs_t pb) (prefix h : str)
     (exp_res : presult Z) (exp_res_valid : presult Z) (exp_err : obj Z) : bool :=
-  let '(fs', r) := oneshotZ t bad env a fs in
+  let '(fs', r) := oneshotZ c t bad env a fs in
   run_eqb r exp_run && fs_agree fs' exp_fs
-  && presult_eqb (parse_job_result Z pb loadZ shipped prefix h None fs') exp_res
-  && presult_eqb (parse_job_result Z pb loadZ shipped prefix h (Some (valid_of bad)) fs') exp_res_valid
-  && obj_eqb (parse_job_error Z pb loadZ shipped prefix h fs') exp_err.
+  && presult_eqb (parse_job_result Z pb loadZ c prefix h None fs') exp_res
+  && presult_eqb (parse_job_result Z pb loadZ c prefix h (Some (valid_of bad)) fs') exp_res_valid
+  && obj_eqb (parse_job_error Z pb loadZ c prefix h fs') exp_err.
 
 Definition mkjob (h : str) (a k : Z) : job Z := {| j_hash := h; j_args := Leaf a; j_kwargs := Leaf k |}.
